@@ -99,7 +99,7 @@ func (t *fnTrans) atEntry() {
 	t.ownEntry()
 	t.tokEntry()
 	// the event log of this activation starts empty
-	for _, k := range []string{"spawned", "sent", "freed", "closed", "armed", "stopped", "fired", "broadcast", "read", "called"} {
+	for _, k := range []string{"spawned", "sent", "freed", "closed", "armed", "stopped", "fired", "broadcast", "read", "called", "loopreached"} {
 		hv := t.h.reg("ghost:"+k, "(Array Int Bool)")
 		t.assume(eq(t.h.get(t.cur, hv), "((as const (Array Int Bool)) false)"))
 		hn := t.h.reg("ghost:"+k+".n", "Int")
@@ -248,13 +248,13 @@ func (t *fnTrans) loopModSet(li *loopInfo) (all bool, vars map[string]bool) {
 				if _, isSt := ty.Underlying().(*types.Struct); isSt {
 					g.noteStructStore(c, s, ty)
 				} else if at, isArr := ty.Underlying().(*types.Array); isArr {
-					s.vars["E:"+bare(g.sortOf(c, at.Elem()))] = true
+					s.vars[g.elemHVName(c, at.Elem())] = true
 				} else {
 					s.vars["C:"+bare(g.sortOf(c, ty))] = true
 				}
 			case *ssa.MakeSlice:
 				sl := in.Type().Underlying().(*types.Slice)
-				s.vars["E:"+bare(g.sortOf(c, sl.Elem()))] = true
+				s.vars[g.elemHVName(c, sl.Elem())] = true
 			case *ssa.MakeMap:
 				m := in.Type().Underlying().(*types.Map)
 				dn, _ := g.mapVarNames(m)
@@ -262,7 +262,7 @@ func (t *fnTrans) loopModSet(li *loopInfo) (all bool, vars map[string]bool) {
 				s.vars["ML"] = true
 			case *ssa.Convert:
 				if sl, ok := in.Type().Underlying().(*types.Slice); ok {
-					s.vars["E:"+bare(g.sortOf(c, sl.Elem()))] = true
+					s.vars[g.elemHVName(c, sl.Elem())] = true
 				}
 			case *ssa.Range:
 				if m, ok := in.X.Type().Underlying().(*types.Map); ok {
@@ -386,6 +386,7 @@ func (t *fnTrans) enterLoop(b *ssa.BasicBlock, li *loopInfo) {
 		entryVals[phi] = body
 	}
 	t.siteState[fmt.Sprintf("loop%d:entry", li.ord)] = entryState
+	t.loopOverCheck(b, li)
 	// assert invariants on entry
 	t.loopInvariants(li, "inv.entry", entryVals, b.Instrs[0].Pos())
 	// havoc
@@ -430,6 +431,11 @@ func (t *fnTrans) enterLoop(b *ssa.BasicBlock, li *loopInfo) {
 		}
 	}
 	t.tokLoopHead(li, entryState)
+	{
+		// loop_reached(N): control got to the head of loop N (with `loop N complete`: every element is visited)
+		hv := t.h.reg("ghost:loopreached", "(Array Int Bool)")
+		t.h.set(t.cur, hv, store(t.h.get(entryState, hv), fmt.Sprint(li.ord), "true"))
+	}
 	t.siteState[fmt.Sprintf("loop%d:head", li.ord)] = t.cur
 	t.cur = t.h.child(t.cur)
 	t.loopInvariantsAssume(li)
@@ -1092,4 +1098,63 @@ func condPos(v ssa.Value) token.Pos {
 		return x.Tuple.Pos()
 	}
 	return token.NoPos
+}
+
+// loopOverCheck: `loop N over E` -- the range loop iterates over exactly the collection E denotes when
+// the loop is entered (a map: the operand of the range; a slice: the value the loop indexes with its
+// range index).  Together with `loop N complete` this pins down *which* elements are visited.
+func (t *fnTrans) loopOverCheck(b *ssa.BasicBlock, li *loopInfo) {
+	if t.contract == nil || len(t.contract.loopOver[li.ord]) == 0 {
+		return
+	}
+	var coll ssa.Value
+	for _, in := range b.Instrs {
+		if nx, ok := in.(*ssa.Next); ok {
+			if rg, ok := nx.Iter.(*ssa.Range); ok {
+				coll = rg.X
+			}
+		}
+	}
+	if coll == nil {
+		// slice range: an element access indexed by a phi of the header
+		phis := map[ssa.Value]bool{}
+		for _, in := range b.Instrs {
+			if phi, ok := in.(*ssa.Phi); ok {
+				phis[phi] = true
+			}
+		}
+		for blk := range li.blocks {
+			for _, in := range blk.Instrs {
+				switch x := in.(type) {
+				case *ssa.IndexAddr:
+					if bo, ok := x.Index.(*ssa.BinOp); ok && (phis[bo.X] || phis[bo.Y]) || phis[x.Index] {
+						if coll == nil || x.X.Pos() < coll.Pos() {
+							coll = x.X
+						}
+					}
+				}
+			}
+		}
+	}
+	for k, sl := range t.contract.loopOver[li.ord] {
+		pos := b.Instrs[0].Pos()
+		if coll == nil {
+			o := t.oblige("loop.over", fmt.Sprintf("loop%d:over%d:not-a-range", li.ord, k+1), pos, "false", "loop "+fmt.Sprint(li.ord)+" is not a range loop over a map or slice any more: "+sl.text)
+			o.Trivial = false
+			continue
+		}
+		if _, def := t.vals[coll]; !def {
+			if _, isConst := coll.(*ssa.Const); !isConst {
+				o := t.oblige("loop.over", fmt.Sprintf("loop%d:over%d:unknown-collection", li.ord, k+1), pos, "false", "cannot identify the collection loop "+fmt.Sprint(li.ord)+" ranges over: "+sl.text)
+				o.Trivial = false
+				continue
+			}
+		}
+		e := t.selfCtx()
+		v, ok := t.evalTerm(e, sl)
+		if !ok {
+			continue
+		}
+		t.oblige("loop.over", fmt.Sprintf("loop%d:over%d", li.ord, k+1), pos, eq(t.val(coll), v), "the loop must range over "+sl.text)
+	}
 }
